@@ -1,18 +1,20 @@
 import UrcuVerif.Wfs.Inv
-/-! Invariant of the wfstack model, continued: pop (cmpxchg), pop_all, iteration; `inv_step`. -/
+/-! Invariant of the wfstack model, continued: pop (cmpxchg), pop_all, iteration, read-side
+sections, abstract grace period, reclamation; `inv_step`. -/
 set_option linter.unusedVariables false
 namespace UrcuVerif.Wfs
 open Lifo
 
-theorem inv_popCas_ok (c : Cfg) {s : State} (h : Inv c s) (t b h0 nx)
+theorem inv_popCas_ok (c : Cfg) (wf : c.WF) {s : State} (h : Inv c s) (t b h0 nx)
     (hp : s.pc t = .popCas b h0 nx) (hb : s.buf t = []) (hhd : s.head = h0) :
-    Inv c { s with head := nx, abs := s.abs.tail, nst := upd s.nst h0 .free,
+    Inv c { s with head := nx, abs := s.abs.tail, nst := upd s.nst h0 (released c s),
+                   clock := s.clock + 1,
                    pc := upd s.pc t .idle, ret := upd s.ret t (.node h0 (nx == END)),
                    hist := ⟨t, .pop, .popped (some h0) (nx == END)⟩ :: s.hist } := by
-  obtain ⟨hc, hpc, hnd, hpnd, habs, hpriv, hpcX, hown, hpcSt, hbI, hbC, hbN, hpp, hpb, hbb, hr1, hr2, hr3, hh⟩ := h
+  obtain ⟨hc, hpc, hnd, hpnd, habs, hpriv, hpcX, hown, hpcSt, hbI, hbC, hbN, hpp, hpb, hbb, hr1, hr2, hr3, hret, hrnx, hcs, hgp, hh⟩ := h
+  unfold Cfg.WF at wf
   have hR := hr3 t b h0 nx hp
-  have hne : s.head ≠ END := by
-    intro e; have := (chain_nil_iff hc).1 e; rw [this] at hR; simp at hR
+  have hne : s.head ≠ END := by rw [hhd]; exact hR.2.1.1.2
   obtain ⟨b1, r, e1, hn1, hl1, hc1⟩ := chain_cons_inv hc hne
   have hnx : s.next h0 = nx := by
     rcases hR.2.2.2 with h1 | h1
@@ -26,7 +28,13 @@ theorem inv_popCas_ok (c : Cfg) {s : State} (h : Inv c s) (t b h0 nx)
   subst hb1
   have hnd' : s.head ∉ r ∧ r.Nodup := by rw [e1] at hnd; simpa using hnd
   have hmem : ∀ a, a ∈ s.abs ↔ a = s.head ∨ a ∈ r := by intro a; rw [e1]; simp
-  have hst0 : s.nst h0 = .inStack := (habs h0).1 hR.2.1
+  have hst0 : s.nst h0 = .inStack := (habs h0).1 (by rw [e1, hhd]; simp)
+  -- any other thread inside a pop: RCU scheme, inside a section that began before now
+  have hfact : ∀ u, hasRightP c s.lock s.cs u → u = t ∨ (c.scheme = .rcu ∧ s.cs u < s.clock) := by
+    intro u hu
+    by_cases hr : c.scheme = .rcu
+    · exact Or.inr ⟨hr, (hcs u (hrP_cs hr hu)).1⟩
+    · exact Or.inl (hrP_excl wf hr hu hR.1)
   constructor
   · rw [e1]; simp only [List.tail_cons]
     refine chain_congr hc1 ?_
@@ -46,22 +54,23 @@ theorem inv_popCas_ok (c : Cfg) {s : State} (h : Inv c s) (t b h0 nx)
   case nodup => rw [e1]; exact hnd'.2
   all_goals (clear hh hc hpc hc1 hl1; subst hhd)
   all_goals (simp only [e1, List.tail_cons]; rw [e1] at hnd; clear e1)
-  all_goals (simp only [upd, hasRight] at *)
+  all_goals (first | assumption | skip)
+  all_goals (simp only [upd, hasRight_eq, hasRightAll_eq, Prot, ProtP, released] at *)
   all_goals grind
 
 
 /-- a thread leaves a pop attempt (or retries): only its pc / return value change -/
-theorem inv_pop_leave (c : Cfg) {s : State} (h : Inv c s) (t : Nat) (pc' : Pc) (r : Ret)
+theorem inv_pop_leave (c : Cfg) (wf : c.WF) {s : State} (h : Inv c s) (t : Nat) (pc' : Pc) (r : Ret)
     (hp : (∃ b, s.pc t = .popLd b) ∨ (∃ b h0, s.pc t = .popSync b h0) ∨ (∃ b h0 nx, s.pc t = .popCas b h0 nx))
     (hpc' : pc' = .idle ∨ ∃ b, pc' = .popLd b) :
     Inv c { s with pc := upd s.pc t pc', ret := upd s.ret t r } := by
-  obtain ⟨hc, hpc, hnd, hpnd, habs, hpriv, hpcX, hown, hpcSt, hbI, hbC, hbN, hpp, hpb, hbb, hr1, hr2, hr3, hh⟩ := h
+  obtain ⟨hc, hpc, hnd, hpnd, habs, hpriv, hpcX, hown, hpcSt, hbI, hbC, hbN, hpp, hpb, hbb, hr1, hr2, hr3, hret, hrnx, hcs, hgp, hh⟩ := h
   constructor
   · simple_frames
   · simple_frames
   rest_tac
 
-theorem inv_popCas (c : Cfg) {s s' : State} (h : Inv c s) (t)
+theorem inv_popCas (c : Cfg) (wf : c.WF) {s s' : State} (h : Inv c s) (t)
     (st : step c s (.popCas t) = some s') : Inv c s' := by
   simp only [step] at st
   split at st
@@ -71,25 +80,26 @@ theorem inv_popCas (c : Cfg) {s s' : State} (h : Inv c s) (t)
       split at st
       · next hhd =>
         simp only [Option.some.injEq] at st; subst st
-        exact inv_popCas_ok c h t b h0 nx hp hb hhd
+        exact inv_popCas_ok c wf h t b h0 nx hp hb hhd
       · split at st
         · simp only [Option.some.injEq] at st; subst st
-          have := inv_pop_leave c h t (.popLd b) (s.ret t) (Or.inr (Or.inr ⟨_, _, _, hp⟩)) (Or.inr ⟨_, rfl⟩)
+          have := inv_pop_leave c wf h t (.popLd b) (s.ret t) (Or.inr (Or.inr ⟨_, _, _, hp⟩)) (Or.inr ⟨_, rfl⟩)
           have e : upd s.ret t (s.ret t) = s.ret := by funext j; simp only [upd]; split <;> simp_all
           rw [e] at this; exact this
         · simp only [Option.some.injEq] at st; subst st
-          exact inv_pop_leave c h t .idle .wouldblock (Or.inr (Or.inr ⟨_, _, _, hp⟩)) (Or.inl rfl)
+          exact inv_pop_leave c wf h t .idle .wouldblock (Or.inr (Or.inr ⟨_, _, _, hp⟩)) (Or.inl rfl)
     · simp at st
   all_goals (first | (simp at st; done) | skip)
 
-theorem inv_popAll (c : Cfg) {s s' : State} (h : Inv c s) (t)
+theorem inv_popAll (c : Cfg) (wf : c.WF) {s s' : State} (h : Inv c s) (t)
     (st : step c s (.popAll t) = some s') : Inv c s' := by
-  obtain ⟨hc, hpc, hnd, hpnd, habs, hpriv, hpcX, hown, hpcSt, hbI, hbC, hbN, hpp, hpb, hbb, hr1, hr2, hr3, hh⟩ := h
+  obtain ⟨hc, hpc, hnd, hpnd, habs, hpriv, hpcX, hown, hpcSt, hbI, hbC, hbN, hpp, hpb, hbb, hr1, hr2, hr3, hret, hrnx, hcs, hgp, hh⟩ := h
   simp only [step] at st
   split at st
   · next g =>
     obtain ⟨g1, g2, g3, g4⟩ := g
     simp only [Option.some.injEq] at st; subst st
+    unfold Cfg.WF at wf
     constructor
     · exact .nil
     · intro u
@@ -113,11 +123,12 @@ theorem inv_popAll (c : Cfg) {s s' : State} (h : Inv c s) (t)
       have h3 := hpriv t a
       by_cases e : t1 = t <;> by_cases m : a ∈ s.abs <;> simp only [upd, e, m, if_true, if_false] <;> grind
     all_goals (clear hh hc hpc)
-    all_goals (simp only [upd, hasRight] at *)
+    all_goals (first | assumption | skip)
+    all_goals (simp only [upd, hasRight_eq, hasRightAll_eq, Prot, ProtP, hasRightP, hasRightAllP, released] at *)
     all_goals grind
   · simp at st
 
-theorem inv_iterNext (c : Cfg) {s s' : State} (h : Inv c s) (t b)
+theorem inv_iterNext (c : Cfg) (wf : c.WF) {s s' : State} (h : Inv c s) (t b)
     (st : step c s (.iterNext t b) = some s') : Inv c s' := by
   simp only [step] at st
   split at st
@@ -127,14 +138,15 @@ theorem inv_iterNext (c : Cfg) {s s' : State} (h : Inv c s) (t b)
     · split at st
       · simp only [Option.some.injEq] at st; subst st; exact h
       · simp only [Option.some.injEq] at st; subst st
-        obtain ⟨hc, hpc, hnd, hpnd, habs, hpriv, hpcX, hown, hpcSt, hbI, hbC, hbN, hpp, hpb, hbb, hr1, hr2, hr3, hh⟩ := h
+        obtain ⟨hc, hpc, hnd, hpnd, habs, hpriv, hpcX, hown, hpcSt, hbI, hbC, hbN, hpp, hpb, hbb, hr1, hr2, hr3, hret, hrnx, hcs, hgp, hh⟩ := h
         constructor
         · simple_frames
         · simple_frames
         rest_tac
     · next hv =>
       simp only [Option.some.injEq] at st; subst st
-      obtain ⟨hc, hpc, hnd, hpnd, habs, hpriv, hpcX, hown, hpcSt, hbI, hbC, hbN, hpp, hpb, hbb, hr1, hr2, hr3, hh⟩ := h
+      obtain ⟨hc, hpc, hnd, hpnd, habs, hpriv, hpcX, hown, hpcSt, hbI, hbC, hbN, hpp, hpb, hbb, hr1, hr2, hr3, hret, hrnx, hcs, hgp, hh⟩ := h
+      unfold Cfg.WF at wf
       obtain ⟨b1, r, e1, hn1, hl1, hc1⟩ := chain_cons_inv (hpc t) g2
       have hrd := rd_cases s t (s.cur t)
       have hlim : s.nst (s.cur t) = .limbo t := (hpriv t _).1 (by rw [e1]; simp)
@@ -177,32 +189,116 @@ theorem inv_iterNext (c : Cfg) {s s' : State} (h : Inv c s) (t b)
           refine lnext_frame (s := s) rfl ?_ hl
           frame_tac
       all_goals (clear hc hpc hc1 hl1 hrd)
-      all_goals (simp only [upd, hasRight] at *)
+      all_goals (first | assumption | skip)
+      all_goals (simp only [upd, hasRight_eq, hasRightAll_eq, Prot, ProtP, hasRightP, hasRightAllP, released] at *)
       all_goals grind
   · simp at st
 
 
-theorem inv_step (c : Cfg) {s s' : State} {l : Label} (h : Inv c s)
+theorem inv_rlock (c : Cfg) (wf : c.WF) {s s' : State} (h : Inv c s) (t)
+    (st : step c s (.rlock t) = some s') : Inv c s' := by
+  obtain ⟨hc, hpc, hnd, hpnd, habs, hpriv, hpcX, hown, hpcSt, hbI, hbC, hbN, hpp, hpb, hbb, hr1, hr2, hr3, hret, hrnx, hcs, hgp, hh⟩ := h
+  simp only [step] at st
+  split at st
+  · next g =>
+    simp only [Option.some.injEq] at st; subst st
+    unfold Cfg.WF at wf
+    constructor
+    · simple_frames
+    · simple_frames
+    rest_tac_u
+  · simp at st
+
+theorem inv_runlock (c : Cfg) (wf : c.WF) {s s' : State} (h : Inv c s) (t)
+    (st : step c s (.runlock t) = some s') : Inv c s' := by
+  obtain ⟨hc, hpc, hnd, hpnd, habs, hpriv, hpcX, hown, hpcSt, hbI, hbC, hbN, hpp, hpb, hbb, hr1, hr2, hr3, hret, hrnx, hcs, hgp, hh⟩ := h
+  simp only [step] at st
+  split at st
+  · next g =>
+    simp only [Option.some.injEq] at st; subst st
+    unfold Cfg.WF at wf
+    constructor
+    · simple_frames
+    · simple_frames
+    rest_tac_u
+  · simp at st
+
+theorem inv_gpStart (c : Cfg) (wf : c.WF) {s s' : State} (h : Inv c s)
+    (st : step c s .gpStart = some s') : Inv c s' := by
+  obtain ⟨hc, hpc, hnd, hpnd, habs, hpriv, hpcX, hown, hpcSt, hbI, hbC, hbN, hpp, hpb, hbb, hr1, hr2, hr3, hret, hrnx, hcs, hgp, hh⟩ := h
+  simp only [step] at st
+  split at st
+  · next g =>
+    simp only [Option.some.injEq] at st; subst st
+    constructor
+    · simple_frames
+    · simple_frames
+    rest_tac
+  · simp at st
+
+theorem inv_gpEnd (c : Cfg) (wf : c.WF) {s s' : State} (h : Inv c s)
+    (st : step c s .gpEnd = some s') : Inv c s' := by
+  obtain ⟨hc, hpc, hnd, hpnd, habs, hpriv, hpcX, hown, hpcSt, hbI, hbC, hbN, hpp, hpb, hbb, hr1, hr2, hr3, hret, hrnx, hcs, hgp, hh⟩ := h
+  simp only [step] at st
+  split at st
+  · next a ha =>
+    split at st
+    · next g =>
+      simp only [Option.some.injEq] at st; subst st
+      have := hgp.2 a ha
+      constructor
+      · simple_frames
+      · simple_frames
+      rest_tac
+    · simp at st
+  · simp at st
+
+/-- recycling: the node's grace period is over, hence no popper that could still reference it is
+inside the section in which it loaded it -/
+theorem inv_reclaim (c : Cfg) (wf : c.WF) {s s' : State} (h : Inv c s) (n)
+    (st : step c s (.reclaim n) = some s') : Inv c s' := by
+  obtain ⟨hc, hpc, hnd, hpnd, habs, hpriv, hpcX, hown, hpcSt, hbI, hbC, hbN, hpp, hpb, hbb, hr1, hr2, hr3, hret, hrnx, hcs, hgp, hh⟩ := h
+  simp only [step] at st
+  split at st
+  · next τ hτ =>
+    split at st
+    · next g =>
+      simp only [Option.some.injEq] at st; subst st
+      unfold Cfg.WF at wf
+      have hrcu := (hret n τ hτ).1
+      constructor
+      · simple_frames
+      · simple_frames
+      rest_tac_u
+    · simp at st
+  all_goals (first | (simp at st; done) | skip)
+
+theorem inv_step (c : Cfg) (wf : c.WF) {s s' : State} {l : Label} (h : Inv c s)
     (st : step c s l = some s') : Inv c s' := by
   cases l with
-  | pushBegin t n => exact inv_pushBegin c h t n st
-  | pushX t => exact inv_pushX c h t st
-  | pushSt t => exact inv_pushSt c h t st
-  | flush t => exact inv_flush c h t st
-  | lock t => exact inv_lock c h t st
-  | unlock t => exact inv_unlock c h t st
-  | empty t => exact inv_empty c h t st
-  | popBegin t b => exact inv_popBegin c h t b st
-  | popLd t => exact inv_popLd c h t st
-  | popSync t => exact inv_popSync c h t st
-  | popCas t => exact inv_popCas c h t st
-  | popAll t => exact inv_popAll c h t st
-  | iterNext t b => exact inv_iterNext c h t b st
+  | pushBegin t n => exact inv_pushBegin c wf h t n st
+  | pushX t => exact inv_pushX c wf h t st
+  | pushSt t => exact inv_pushSt c wf h t st
+  | flush t => exact inv_flush c wf h t st
+  | lock t => exact inv_lock c wf h t st
+  | unlock t => exact inv_unlock c wf h t st
+  | rlock t => exact inv_rlock c wf h t st
+  | runlock t => exact inv_runlock c wf h t st
+  | gpStart => exact inv_gpStart c wf h st
+  | gpEnd => exact inv_gpEnd c wf h st
+  | reclaim n => exact inv_reclaim c wf h n st
+  | empty t => exact inv_empty c wf h t st
+  | popBegin t b => exact inv_popBegin c wf h t b st
+  | popLd t => exact inv_popLd c wf h t st
+  | popSync t => exact inv_popSync c wf h t st
+  | popCas t => exact inv_popCas c wf h t st
+  | popAll t => exact inv_popAll c wf h t st
+  | iterNext t b => exact inv_iterNext c wf h t b st
 
-theorem inv_reach (c : Cfg) {s : State} (h : Reach c s) : Inv c s := by
+theorem inv_reach (c : Cfg) (wf : c.WF) {s : State} (h : Reach c s) : Inv c s := by
   induction h with
   | init => exact inv_init c
-  | step _ st ih => exact inv_step c ih st
+  | step _ st ih => exact inv_step c wf ih st
 
 theorem run_reach (c : Cfg) {s s' : State} (ls : List Label) (h : Reach c s)
     (hr : run c s ls = some s') : Reach c s' := by
